@@ -26,3 +26,8 @@ package templater
 //@ func (*Cache).Err
 //@   trusted
 //@   pure
+
+// The shellQuote / q template function is exactly the bash quoting of its argument.
+//@ func init#1$9
+//@   pure
+//@   ensures result.1 == nil ==> result.0 == shQuote(str)                                            [C19]
